@@ -76,6 +76,7 @@ fn main() {
             "C04" => print_replay(&id, props::c04::replay(&name, &path)),
             "C05" => print_replay(&id, props::c05::replay(&name, &path)),
             "C12" => print_replay(&id, props::c12::replay(&name, &path)),
+            "C13" => print_replay(&id, props::c13::replay(&name, &path)),
             _ => {
                 eprintln!("unknown property {id}");
                 2
@@ -87,6 +88,7 @@ fn main() {
             "C04" => props::c04::check(&tier),
             "C05" => props::c05::check(&tier),
             "C12" => props::c12::check(&tier),
+            "C13" => props::c13::check(&tier),
             _ => {
                 eprintln!("unknown property {id}");
                 2
